@@ -160,6 +160,8 @@ def run(ctx):
     for i in range(5 if ctx.quick() else 40):
         lines, ids = pdbgen.multichain(rnd, nchains=rnd.randint(1, 3), separation=rnd.choice([12.0, 20.0, 60.0]))
         inputs.append(("gen%d" % i, pdbgen.text(lines)))
+    # same-label twins coupled to a third group: several determinants with one label next to each other in the swapped lists
+    inputs.append(("1FTJ-LYS210-210A", pdbgen.text(pdbgen.salt_bridge_twins())))
     off_bad, star_bad, npairs = [], [], 0
     for name, text in inputs:
         on = observe.run(text, [], want_text=True)
